@@ -102,6 +102,14 @@ func New() *Server {
 	return &Server{objects: map[[2]int]*kobj.Obj{}, nextID: 1}
 }
 
+// StartVersion makes the next change carry resource version v (0 is a legal
+// resource version: the first object of an empty store).
+func (s *Server) StartVersion(v int) {
+	s.mu.Lock()
+	s.version = v - 1
+	s.mu.Unlock()
+}
+
 func (s *Server) Version() int {
 	s.mu.Lock()
 	defer s.mu.Unlock()
